@@ -830,20 +830,20 @@ func (r *c09Run) knownTargets() (dirty [2]bool, ripemd [2]bool, touch [2]bool, t
 			dirty[o.ai] = true
 		}
 		if o.touches(r.d) {
-			if o.addr == ripemd_() {
+			if o.addr == c09RipemdAddr() {
 				ripemd[o.ai] = true
 			} else {
 				touch[o.ai] = true
 			}
 		}
-		if o.touchesDirty(r.d) && o.addr != ripemd_() {
+		if o.touchesDirty(r.d) && o.addr != c09RipemdAddr() {
 			touchDirty[o.ai] = true
 		}
 	}
 	return
 }
 
-func ripemd_() common.Address { return c09AddrR }
+func c09RipemdAddr() common.Address { return c09AddrR }
 
 // VerifC09_Revert: one-step revert is exact: observables, and the trie content
 // a following Finalise produces, equal those of the untouched pre-state.
